@@ -4,6 +4,8 @@ from fractions import Fraction
 
 
 def element_style(desc, t, key=None, **_):
+  import rtc.c03 as _R
+  _R.pin_readings()
   import logging
   logging.disable(logging.CRITICAL)
   import rtc.c03 as R
@@ -14,7 +16,9 @@ def element_style(desc, t, key=None, **_):
   R.check_snapshot(Recorder("C03", "", {}), doc, Fraction(t), desc, info, got)
   lines = [f"document: {R.json.dumps(desc)}", f"t = {t}"]
   for k, rid, eid, name, obs, exp in got:
-    if rid is None:
+    if k.startswith("initial-value-not-kept"):
+      lines.append(f"[{k}] put_initial_value({name}, {exp}) was called while the document was built; get_initial_value now gives {obs}")
+    elif rid is None:
       lines.append(f"[{k}] ISD.from_model raised {obs}; required: {exp}")
     else:
       lines.append(f"[{k}] region {rid!r} element {eid!r} {name}: ttconv computed {R.S.show(obs) if obs is not None else 'nothing'}; "
